@@ -1,4 +1,4 @@
-import DoitModel.Proofs.C05Main
+import DoitModel.Proofs.C05Mon
 /-! # C05 — failures are contained and never recorded as success
 
 Property theorems only (model: `Model/Run.lean` + `Model/RunFail.lean`; invariants: `Proofs/Run*.lean`,
@@ -13,11 +13,13 @@ a task that is up-to-date does not count: its setup-tasks are never looked at, D
 namespace DoitModel.C05
 open DoitModel.Run
 
-/-- (a) for one transition system: once `d` has a failure report (failed / error / unmet dependency / dependency error),
+/-- (a) for one transition system (`DepPlusE`: the dependency relation as the run determines it — it contains the static
+    `DepPlus`, see `C05_no_start_after_failure`; it differs only in counting the setup-tasks of every task the run did
+    not report up-to-date, whatever the oracle says): once `d` has a failure report (failed / error / unmet dependency / dependency error),
     a task `t` that depends on `d` in any way is never chosen by `select_task`, its actions never start — neither
     after the report (what the property asks) nor before it — and it is reported neither successful nor up-to-date -/
 def NoDependentRuns (inp : RunInput) (reach : Sys → Prop) : Prop :=
-  ∀ s, reach s → ∀ (d t : Name) (k : FailKind), Ev.failure d k ∈ s.events → DepPlus inp t d →
+  ∀ s, reach s → ∀ (d t : Name) (k : FailKind), Ev.failure d k ∈ s.events → DepPlusE inp s.events t d →
     (∀ deps, Ev.go t deps ∉ s.events) ∧ (∀ w, Ev.start t w ∉ s.events) ∧ Ev.success t ∉ s.events ∧
       Ev.skipUtd t ∉ s.events
 
@@ -33,6 +35,8 @@ theorem C05_no_dependent_runs_parallel (inp : RunInput) : NoDependentRuns inp (P
 theorem C05_no_start_after_failure (inp : RunInput) (s : Sys) (hr : PReach inp s ∨ Reach inp s) (pre post : List Ev)
     (d t : Name) (k : FailKind) (he : s.events = post ++ Ev.failure d k :: pre) (hd : DepPlus inp t d) :
     ∀ w, Ev.start t w ∉ post := by
+  have hF : InvF inp s := by rcases hr with hr | hr; exact preach_invF hr; exact reach_invF hr
+  have hd := depPlus_depPlusE hF hd
   intro w hw
   have hf : Ev.failure d k ∈ s.events := by rw [he]; simp
   have hs : Ev.start t w ∈ s.events := by rw [he]; simp [hw]
@@ -101,6 +105,34 @@ theorem C05_serial_stops_state (inp : RunInput) (hc : inp.continue_ = false) (s 
     (d : Name) (k : FailKind) (hf : Ev.failure d k ∈ s.events) :
     s.stop = true ∧ s.rpc ≠ .sWait ∧ ∀ m, s.rpc ≠ .sExec m :=
   (reach_invS hc hr).sd ⟨d, k, hf⟩
+
+/-! ### the monitors: the decidable statements the driver evaluates on every IMPLEMENTATION trace hold on every
+    observable trace of the model (so an implementation trace on which one is false is no trace of the model) -/
+
+/-- (a): `monC05NoDependentRuns` — after a failure report of `d`, no `start t` with `d` in the dependency closure of `t`
+    computed from the trace (task_dep, setup unless reported up-to-date, calc_dep, everything delivered by finished
+    calc_deps; transitively) — for every bound `nTasks` of the fixed-point iterations -/
+theorem C05_monitor_no_dependent_runs_serial (inp : RunInput) (s : Sys) (hr : Reach inp s) (nTasks : Nat) :
+    monC05NoDependentRuns inp nTasks (trace inp s) = true :=
+  monC05NoDependentRuns_of_inv (reach_inv2 hr) (reach_invG hr) (reach_invF hr) nTasks
+
+theorem C05_monitor_no_dependent_runs_parallel (inp : RunInput) (s : Sys) (hr : PReach inp s) (nTasks : Nat) :
+    monC05NoDependentRuns inp nTasks (trace inp s) = true :=
+  monC05NoDependentRuns_of_inv (preach_inv hr).1 (preach_invG hr) (preach_invF hr) nTasks
+
+/-- (b): `monC05NotRecorded` with the DB content the model predicts (`recAfter`), whatever was recorded before -/
+theorem C05_monitor_not_recorded_serial (inp : RunInput) (s : Sys) (hr : Reach inp s) (nTasks : Nat) (r0 : Name → Bool) :
+    monC05NotRecorded nTasks (trace inp s) (fun n => recAfter r0 n s.events) = true :=
+  monC05NotRecorded_of_inv (reach_inv3 hr) nTasks r0
+
+theorem C05_monitor_not_recorded_parallel (inp : RunInput) (s : Sys) (hr : PReach inp s) (nTasks : Nat)
+    (r0 : Name → Bool) : monC05NotRecorded nTasks (trace inp s) (fun n => recAfter r0 n s.events) = true :=
+  monC05NotRecorded_of_inv (preach_inv hr).2 nTasks r0
+
+/-- (d): `monC05SerialStops` -/
+theorem C05_monitor_serial_stops (inp : RunInput) (s : Sys) (hr : Reach inp s) :
+    monC05SerialStops inp (trace inp s) = true :=
+  monC05SerialStops_of_inv (fun hc => reach_invS hc hr)
 
 /-! ### the pinned behaviour -/
 
